@@ -37,7 +37,10 @@ _tmpn = itertools.count(1)      # next() is atomic: drivers run on a thread pool
 
 def build_binaries(ctx):
     mdl, log1 = vlib.ocaml_driver('codec_model', 'Extract/ExtractCodec.vo', ['ocaml/codec_driver.ml'])
-    drv, log2 = vlib.build_cpp('h3_codec', ['harness/h3/codec_driver.cpp'], timeout=2400,
+    # a scratch copy of the repository (VERIF_REPO) gets its own cache slot, so that trying a change does not evict the
+    # binary built from /repo
+    name = 'h3_codec' if vlib.REPO == '/repo' else 'h3_codec_' + hashlib.sha1(vlib.REPO.encode()).hexdigest()[:8]
+    drv, log2 = vlib.build_cpp(name, ['harness/h3/codec_driver.cpp'], timeout=2400,
                                extra_key=vlib.tree_hash([os.path.join(vlib.VERIF, 'harness/h1/h1.hpp')]))
     if not mdl:
         ctx.broken.append('model driver does not build: ' + log1[-300:])
@@ -228,10 +231,10 @@ def walk_rank(p, a):
 
 def oracle_c12(reg, res):
     F = []
-    if res['crashed']:
-        return ['driver crashed: ' + res['stderr'].split('\n')[0][:300]]
     o = kv(res['lines'])
     if o.get('update') != 'ok':
+        if res['crashed']:
+            return ['driver crashed: ' + res['stderr'].split('\n')[0][:300]]
         return [] if o.get('update', '').startswith('error') else ['no update line']
     if 'other' in o:
         F.append('unexpected output: %r' % o['other'][:2])
@@ -252,6 +255,10 @@ def oracle_c12(reg, res):
                      % (mi, a, pr[0], pr[1], inst[0], inst[1]))
         elif pr[0] != ss[:a] or pr[1] != ss[a:]:
             F.append('method %d (arity %d): printed slots %s strides %s, installed slots_strides %s' % (mi, a, pr[0], pr[1], ss))
+    if res['crashed']:
+        # the offsets were printed before the crash: the comparison above stands; the crash itself is reported too
+        where = 'while resolving calls through the printed static offsets' if 'rewalk' in o or 'codec decoded' in o else 'before the static-offset runs'
+        return F + ['driver crashed %s: %s' % (where, res['stderr'].split('\n')[0][:300])]
     for pol in ('release', 'checked'):
         v = o.get('static ' + pol)
         if v is None:
@@ -516,8 +523,17 @@ def run_programs_c12(sc, rng):
 
 # --------------------------------------------------------------------------- replay
 
-def replay(ctx, mdl, drv, oracle, prefixes, impl_subset):
+def replay(ctx, mdl, drv, oracle, prefixes, impl_subset, prog_runner=None):
     obj = json.load(open(ctx.replay))
+    if 'scenario' in obj and 'case_text' not in obj:
+        # a generated program: compile and run its variants again
+        F, st = prog_runner(obj['scenario']) if prog_runner else run_programs_c12(obj['scenario'], vlib.Rng(obj.get('seed', 1) * 7919))
+        print('--- program scenario: %s' % json.dumps(obj['scenario']))
+        print('--- oracle')
+        print('\n'.join(F) if F else 'the program variants agree')
+        if F:
+            ctx.violation('%s replay: %s' % (ctx.pid, F[0]), {'scenario': obj['scenario'], 'failures': F[:10], 'origin': 'replay ' + ctx.replay})
+        vlib.finish(ctx, {'evaluations': 1, 'distinct_nontrivial': 1, 'rule': 'replay of one generated program', 'samples': [obj['scenario']]})
     text = obj.get('case_text') or open(obj['case_file']).read()
     reg = obj.get('registry') or parse_case(text)
     q = [('replay', query_of('replay', reg))]
@@ -697,7 +713,7 @@ def main():
         'methods_with_static_offsets_compiled_in': tot['real_methods'],
         'tuples_resolved_with_static_offsets': tot['static_tuples'], 'consistency_check_probes': tot['check_probes'],
         'oracle_failures': nviol, 'correspondence_differences': ncorr,
-        'programs': pstats, 'seconds': {'drivers': round(t_run, 1), 'programs': round(t_prog, 1)},
+        'programs': sum(st.get('programs', 0) for st in pstats), 'generated_programs': pstats, 'seconds': {'drivers': round(t_run, 1), 'programs': round(t_prog, 1)},
     }
     ass = ['the debug check is exercised at run time through static_offsets specializations whose arrays the driver fills (same resolve code, '
            'arrays not constexpr); the literal generated header is compiled in %d generated program(s) per run' % nprog,
